@@ -173,12 +173,12 @@ def ensure_engine():
     return out
 
 
-def ensure_harness(name, kind="rcfork", extra_flags=()):
+def ensure_harness(name, kind="rcfork", extra_flags=(), source=None):
     """kind: rcfork (engine + san lib), fuzz (libFuzzer + san lib), tsan (plain main + tsan lib), plain (san lib, own main)"""
     src = None
     for ext in (".cpp", ".c"):
         for sub in ("src", "src/fuzz"):
-            p = os.path.join(VERIF, sub, name + ext)
+            p = os.path.join(VERIF, sub, (source or name) + ext)
             if os.path.exists(p):
                 src = p
     if not src:
@@ -388,6 +388,164 @@ def run_workers(ctx, job):
                 ctx.inconclusive.append("flaky failure in %s seed %d: %s" % (tag, seed, fl["signature"]))
 
 
+def classify_fuzz_output(out):
+    """signature of a failing libFuzzer run (same vocabulary as the rcfork engine)"""
+    m = re.search(r"ORACLE-FAIL rule=(\S+?): ([^\n]*)", out)
+    if m:
+        return "oracle:" + m.group(1), m.group(2)
+    m = re.search(r"([A-Za-z0-9_]+)\([^\n]*\): Assertion `([^\n]*)' failed", out)
+    if m:
+        return "assert:%s:%s" % (m.group(1), m.group(2)), m.group(0)
+    m = re.search(r"ERROR: AddressSanitizer: ([A-Za-z0-9_-]+)", out)
+    if m:
+        fr = re.search(r"#[0-9]+ 0x[0-9a-f]+ in ([A-Za-z0-9_]+) [^\n]*/(hwloc|include|utils)/[^\n]*", out[m.start():])
+        return "asan:%s:%s" % (m.group(1), fr.group(1) if fr else "?"), out[m.start():m.start() + 1500]
+    m = re.search(r"([A-Za-z0-9_.+-]+):[0-9]+:[0-9]+: runtime error: ([^\n]*)", out)
+    if m:
+        return "ubsan:%s:%s" % (m.group(1), re.sub(r"[0-9]+", "N", m.group(2))), m.group(0)
+    m = re.search(r"ERROR: LeakSanitizer: detected memory leaks", out)
+    if m:
+        fr = re.search(r"#[0-9]+ 0x[0-9a-f]+ in ([A-Za-z0-9_]+) [^\n]*/(hwloc|include|utils)/[^\n]*", out[m.start():])
+        return "leak:%s" % (fr.group(1) if fr else "?"), out[m.start():m.start() + 1500]
+    if "ERROR: libFuzzer: timeout" in out:
+        return "hang", "libFuzzer timeout"
+    m = re.search(r"ERROR: libFuzzer: ([^\n]*)", out)
+    if m:
+        return "libfuzzer:" + m.group(1), out[m.start():m.start() + 800]
+    return "exit", out[-800:]
+
+
+def fuzz_replay(binp, path, env, timeout=60, repeat=3):
+    """re-run one input; returns (fails, signature, msg)"""
+    fails, sig, msg = 0, "", ""
+    for _ in range(repeat):
+        try:
+            r = subprocess.run([binp, "-timeout=%d" % timeout, "-rss_limit_mb=6000", path], env=env, stdout=subprocess.PIPE, stderr=subprocess.STDOUT, text=True, errors="replace", timeout=timeout * 2 + 30)
+            if r.returncode != 0:
+                fails += 1
+                sig, msg = classify_fuzz_output(r.stdout)
+        except subprocess.TimeoutExpired:
+            fails += 1
+            sig, msg = "hang", "wall-clock limit while replaying"
+    return fails, sig, msg
+
+
+def match_known(ctx, sig, msg, harness=None):
+    for k in ctx.open_known():
+        if k.get("signature") and (not harness or not k.get("harness") or k["harness"] == harness):
+            if re.search(k["signature"], sig + " :: " + msg):
+                return k
+    return None
+
+
+def run_fuzz(ctx, t):
+    """t: dict(name, bin, seconds, workers, seeds=[bytes], dict=path|None, max_len, env, hang_is_violation, empty_corpus_workers)"""
+    name, binp = t["name"], t["bin"]
+    env0 = base_env()
+    env0.update(t.get("env", {}))
+    # replay tier for raw artifacts
+    by_replay = {os.path.normpath(os.path.join(VERIF, k["replay"])): k for k in ctx.known if k.get("replay")}
+    for f in sorted(glob.glob(os.path.join(VERIF, "regress", ctx.pid, name, "*"))):
+        fails, sig, msg = fuzz_replay(binp, f, env0, repeat=2)
+        k = by_replay.get(os.path.normpath(f))
+        entry = {"file": os.path.relpath(f, VERIF), "verdict": "fail" if fails == 2 else "flaky" if fails else "pass", "signature": sig}
+        if k:
+            entry["finding"], entry["status"] = k["id"], k["status"]
+        ctx.replayed.append(entry)
+        if fails == 2:
+            if k and k["status"] == "open":
+                ctx.known_lines.append("KNOWN-FINDING: property=%s %s: %s" % (ctx.pid, k["id"], k["title"]))
+            else:
+                ctx.violations.append((("fixed finding %s reproduces again" % k["id"]) if k else "regression input fails" + " [" + sig + "]", f))
+    procs = []
+    nw = max(1, t["workers"])
+    for w in range(nw):
+        wd = os.path.join(ctx.work, "%s.fz%d" % (name, w))
+        corpus = os.path.join(wd, "corpus")
+        os.makedirs(corpus, exist_ok=True)
+        if w >= t.get("empty_corpus_workers", 0):
+            for i, sd in enumerate(t.get("seeds", [])):
+                with open(os.path.join(corpus, "seed%04d" % i), "wb") as fh:
+                    fh.write(sd)
+        stats = os.path.join(wd, "stats.json")
+        seed = (ctx.seed * 1000003 + t.get("seed_offset", 0) * 1009 + w) % 2147483647 or 1
+        cmd = [binp, corpus, "-max_total_time=%d" % t["seconds"], "-seed=%d" % seed, "-artifact_prefix=%s/art-" % wd, "-print_final_stats=1",
+               "-max_len=%d" % t.get("max_len", 4096), "-timeout=%d" % t.get("timeout", 25), "-rss_limit_mb=6000", "-use_value_profile=1"]
+        if t.get("dict"):
+            cmd.append("-dict=" + t["dict"])
+        cmd += t.get("args", [])
+        env = dict(env0)
+        env["VERIF_FUZZ_STATS"] = stats
+        lf = open(os.path.join(wd, "log.txt"), "w")
+        procs.append((subprocess.Popen(cmd, env=env, stdout=lf, stderr=subprocess.STDOUT), wd, stats, lf, seed, w))
+    total_execs, best_distinct, cov, nontrivial_total = 0, 0, 0, 0
+    samples, seen_sigs = [], set()
+    fz = {"target": name, "workers": nw, "seconds": t["seconds"], "artifacts": {"crash": 0, "leak": 0, "timeout": 0, "oom_or_slow_ignored": 0}, "known_hits": {}, "per_worker": []}
+    for p, wd, stats, lf, seed, w in procs:
+        rc = p.wait()
+        lf.close()
+        with open(os.path.join(wd, "log.txt"), errors="replace") as fh:
+            logtxt = fh.read()
+        m = re.findall(r"stat::number_of_executed_units:\s*(\d+)", logtxt)
+        execs = int(m[-1]) if m else 0
+        mc = re.findall(r"cov: (\d+)", logtxt)
+        c = int(mc[-1]) if mc else 0
+        st = {}
+        try:
+            with open(stats) as fh:
+                st = json.load(fh)
+        except Exception:
+            pass
+        if not execs and st.get("execs"):
+            execs = st["execs"]
+        if not execs:
+            m2 = re.findall(r"#(\d+)\s", logtxt)
+            execs = int(m2[-1]) if m2 else 0
+        total_execs += execs
+        cov = max(cov, c)
+        best_distinct = max(best_distinct, st.get("distinct_nontrivial", st.get("distinct_accepted", 0)))
+        for x in st.get("samples", []):
+            if len(samples) < 12 and x not in samples:
+                samples.append(x)
+        fz["per_worker"].append({"seed": seed, "execs": execs, "cov": c, "rc": rc, "corpus": "empty" if w < t.get("empty_corpus_workers", 0) else "seeded", "stats": {k: v for k, v in st.items() if k != "samples"}})
+        for art in sorted(glob.glob(wd + "/art-*")):
+            base = os.path.basename(art)
+            kind = base.split("-")[1]
+            if kind in ("oom", "slow"):
+                fz["artifacts"]["oom_or_slow_ignored"] += 1
+                continue
+            if kind == "timeout":
+                fails, sig, msg = fuzz_replay(binp, art, env0, timeout=60)
+                if fails < 3 or not t.get("hang_is_violation"):
+                    ctx.inconclusive.append("%s: timeout artifact did not confirm as a hang (%d/3)" % (name, fails))
+                    continue
+                sig = "hang"
+            else:
+                fails, sig, msg = fuzz_replay(binp, art, env0)
+                if fails < 3:
+                    ctx.inconclusive.append("%s: artifact %s reproduced %d/3" % (name, base, fails))
+                    continue
+            fz["artifacts"][kind if kind in fz["artifacts"] else "crash"] += 1
+            k = match_known(ctx, sig, msg, name)
+            if k:
+                fz["known_hits"][k["id"]] = fz["known_hits"].get(k["id"], 0) + 1
+                continue
+            if sig in seen_sigs:
+                continue
+            seen_sigs.add(sig)
+            dst = ctx.save_violation(art, "%s-%s" % (name, base[4:44]))
+            ctx.violations.append(("%s: %s" % (sig, msg[:300].replace("\n", " | ")), dst))
+        if rc != 0 and not glob.glob(wd + "/art-*"):
+            ctx.inconclusive.append("%s worker %d exited %d without artifact: %s" % (name, w, rc, logtxt[-300:]))
+    fz["execs"], fz["cov_edges"], fz["distinct_nontrivial_lower_bound"] = total_execs, cov, best_distinct
+    ctx.extra.setdefault("fuzz", []).append(fz)
+    ctx.extra["extra_evaluations"] = ctx.extra.get("extra_evaluations", 0) + total_execs
+    ctx.extra["extra_distinct_nontrivial"] = ctx.extra.get("extra_distinct_nontrivial", 0) + best_distinct
+    ctx.extra.setdefault("extra_samples", []).extend({"fuzz_target": name, "input": x} for x in samples[:6])
+    if t.get("rule"):
+        ctx.extra["fuzz_rule_" + name] = t["rule"]
+
+
 def merge_evidence(ctx, rule_extra=""):
     ev = {"property_id": ctx.pid, "tier": ctx.tier, "seed": ctx.seed, "level": "exploration"}
     evaluations = sum(s.get("evaluations", 0) for s in ctx.summaries)
@@ -483,7 +641,7 @@ def main(argv):
         ensure_engine()
         names = props.all_harnesses()
         with ThreadPoolExecutor(NCPU) as ex:
-            list(ex.map(lambda nk: ensure_harness(nk[0], nk[1], nk[2]), names))
+            list(ex.map(lambda nk: ensure_harness(*nk), names))
         log("[setup] done in %.1fs (tree key %s)" % (time.time() - t0, lib_key()))
         return 0
     pid = argv[0]
